@@ -706,3 +706,21 @@ Definition sticky_pick (bks : list bk) (h : Z) : option bk :=
   end.
 (* the backend inventory of a sub-cluster after Init or Update, as (AddrInfo, weight x 100) in AddrInfo order *)
 Definition bk_inventory (bks : list bk) : list (str * Z) := map (fun b => (addr_info b, b_weight b * 100)) (bk_sorted bks).
+
+(* a whole load history: Init(a), then Reload(c) for every later configuration c (a failing Reload is excluded: None) *)
+Fixpoint gslb_chain (s : list (str * Z)) (confs : list (list (str * Z))) : option (list (str * Z)) :=
+  match confs with
+  | [] => Some s
+  | c :: r => let s' := sort_by_name (gslb_merge s c) in
+              if pos_total s' =? 0 then None else gslb_chain s' r
+  end.
+Definition gslb_after_history (hist : list (list (str * Z))) (b : list (str * Z)) : option (list (str * Z) * Z * bool * Z) :=
+  match hist with
+  | [] => None
+  | a :: rest =>
+      if pos_total a =? 0 then None
+      else match gslb_chain (sort_by_name a) (rest ++ [b]) with
+           | Some s => Some (gslb_view s)
+           | None => None
+           end
+  end.
